@@ -3,6 +3,12 @@ package customize
 import (
 	"sync"
 
+	"github.com/go-logr/logr"
+
+	"metacontroller/pkg/controller/common"
+	dynamicclientset "metacontroller/pkg/dynamic/clientset"
+	dynamicinformer "metacontroller/pkg/dynamic/informer"
+
 	"metacontroller/pkg/apis/metacontroller/v1alpha1"
 	"metacontroller/pkg/controller/common/api"
 	v1 "metacontroller/pkg/controller/common/customize/api/v1"
@@ -34,4 +40,21 @@ func (h *VerifHook) Calls() int {
 	h.mu.Lock()
 	defer h.mu.Unlock()
 	return h.calls
+}
+
+// VerifNewManager builds a Manager through the REAL NewCustomizeManager (a field
+// a later version adds and initialises there is initialised here too) for a
+// CompositeController "cc" with a customize hook, then swaps in the harness's
+// hook stub. The caller fills parentKinds / parentInformers (they are the maps
+// the Manager holds) and may pre-register related informers.
+func VerifNewManager(dyn *dynamicclientset.Clientset, factory *dynamicinformer.SharedInformerFactory, enqueue func(interface{}), hook hooks.Hook) (*Manager, *v1alpha1.CompositeController) {
+	cc := &v1alpha1.CompositeController{}
+	cc.Name = "cc"
+	cc.Spec.Hooks = &v1alpha1.CompositeControllerHooks{Customize: &v1alpha1.Hook{}}
+	mgr, err := NewCustomizeManager("cc", enqueue, cc, dyn, factory, common.InformerMap{}, common.GroupKindMap{}, logr.Discard(), common.CompositeController)
+	if err != nil {
+		panic(err)
+	}
+	mgr.customizeHook = hook
+	return mgr, cc
 }
